@@ -55,6 +55,12 @@ def _limits():
     os.setsid()
 
 
+def _limits_big():
+    # concrete playback: kani-driver itself post-processes the whole trace
+    resource.setrlimit(resource.RLIMIT_AS, (3 * MEM_LIMIT_KB * 1024, 3 * MEM_LIMIT_KB * 1024))
+    os.setsid()
+
+
 def ensure_deps_cache(root, log=None):
     """Compile the dependencies once into a cache target dir (cargo re-checks fingerprints on
     every use, so a stale cache only costs time, never correctness)."""
@@ -156,7 +162,7 @@ def run_harness(root, h, workdir, extra_flags=()):
     with open(logp, "w") as lf:
         try:
             p = subprocess.Popen(cmd, cwd=root, env=scratch.ENV, stdout=lf, stderr=subprocess.STDOUT,
-                                 preexec_fn=_limits)
+                                 preexec_fn=_limits_big if "--concrete-playback=print" in cmd else _limits)
             try:
                 p.wait(timeout=h.timeout)
             except subprocess.TimeoutExpired:
